@@ -6,7 +6,7 @@ from gen import outline_font
 from ufo import build, err_kind, rat
 
 ID = "C04"
-THEOREM = "Ufo2ft.C04.C04_numLong / C04_decode / C04_header / C04_hmtx / C04_vmtx / C04_fontBox / C04_charRange / C04_vorg / C04_toInt"
+THEOREM = "Ufo2ft.C04.C04_numLong / C04_decode / C04_header / C04_hmtx / C04_vmtx / C04_fontBox / C04_charRange / C04_vorg / C04_toInt / C04_cffWidths / C04_cffWidths_hmtx"
 N = {"quick": 300, "thorough": 5000}
 RULE = ("exhaustive: every advance sequence of length 1..5 (quick) / 1..6 (thorough) over {0,5,7} as a real font through "
         "Outline{TTF,OTF}Compiler (numberOfHMetrics); random: line-segment fonts with empty glyphs, translated components, "
@@ -14,8 +14,20 @@ RULE = ("exhaustive: every advance sequence of length 1..5 (quick) / 1..6 (thoro
         "roundTolerance in {None,0,0.25,0.5}, BMP/supplementary/no code points. Every derived field is read from the in-memory "
         "font returned by the outline compiler (fontTools recalculates most of them at save time, which would mask ufo2ft's "
         "own arithmetic) and from the saved-and-reloaded font; glyph bounds are measured independently by drawing the compiled "
-        "glyphs. non-trivial = has at least one empty glyph and one boxed glyph and (a repeated trailing advance or vertical metrics).")
+        "glyphs. non-trivial = has at least one empty glyph and one boxed glyph and (a repeated trailing advance or vertical metrics). "
+        "CFF width stream (tag cffw, n/3 OTF fonts of 2..12 glyphs): a dominant advance (0 in half of the fonts: mark-only fonts) "
+        "shared by 0/50/60/75/90/100 % of the glyphs, the others near it (+-1, +-0.5, +0.25, +107/108, +1131/1132 = the operand-size "
+        "boundaries) or unrelated; in 45 % fontinfo sets postscriptDefaultWidthX / postscriptNominalWidthX to every combination of "
+        "unset / 0 / rounds-to-0 / non-zero / equal to a glyph's advance, otherwise fontTools' optimizeWidths chooses the pair, so all "
+        "four zero/non-zero combinations of (defaultWidthX, nominalWidthX) occur in every quick run. For every OTF font (all streams) "
+        "the two Private-dict width operators as written (absent vs present) and the raw width operand of every charstring (own "
+        "T2WidthExtractor run, nothing decoded by fontTools) are observed in memory and after save/reload; non-trivial there = at least "
+        "two distinct advances.")
 ASSUMED = ["glyph outline bounds as computed by fontTools (calcBounds/recalcBounds) enter the model as input (measured independently with BoundsPen)",
+           "the pair (defaultWidthX, nominalWidthX) when fontinfo sets neither is fontTools.cffLib.width.optimizeWidths' choice: an input of the model "
+           "(recomputed by the harness from the rounded advances of the glyph set); the theorem holds for ANY pair",
+           "how a CFF reader obtains an advance (absent Private operator = 0; no operand -> defaultWidthX, else nominalWidthX + operand) is the "
+           "CFF specification's rule, written down as Spec.readCffWidth",
            "byte-level save/load/save idempotence is a law of fontTools' table compilers: measured on every generated font, not proved"]
 
 
@@ -59,6 +71,32 @@ def gen(rng, n, mode):
         yield {"kind": "font", "fd": fd, "otf": otf, "tol": rng.choice([None, None, 0, 0.25, 0.5]) if otf else None,
                "vertical": rng.random() < 0.5, "lib": rng.choice(["ufoLib2", "defcon"]), "post3": otf and rng.random() < 0.3,
                "notdef": rng.random() < 0.3}
+    # CFF width stream: OTF fonts whose advance distribution / fontinfo decides the pair
+    # (defaultWidthX, nominalWidthX); every combination of zero / non-zero for the two Private operators
+    for i in range(max(20, n // 3)):
+        fd = outline_font(rng, nglyphs=rng.choice([2, 3, 4, 6, 9, 12]), kinds=("line",), grid=1, half=0.0, mats=("id",),
+                          maxdepth=1, pcomp=0.2, mixed=0.0, widthhalf=0.0)
+        gl = fd["glyphs"]
+        common = rng.choice([0, 0, 0, 500, 600, rng.randrange(1, 1000)])   # the dominant advance (mark-only fonts: 0)
+        r = rng.random()
+        share = 1.0 if r < 0.1 else (0.0 if r < 0.2 else rng.choice([0.5, 0.6, 0.75, 0.9]))
+        for g in gl:
+            if rng.random() < share:
+                g["width"] = common
+            else:
+                g["width"] = rng.choice([common + rng.choice([1, -1, 0.5, -0.5, 0.25, 107, 108, 1131, 1132]),
+                                         rng.choice([250, 520, 533, 600, 640]), rng.randrange(0, 1400)])
+                if g["width"] < 0:
+                    g["width"] = -g["width"]
+        if mode == "search" and rng.random() < 0.1:
+            gl[0]["width"] = -rng.choice([1, 0.75, 300])
+        psw = None
+        if rng.random() < 0.45:
+            ws = [g["width"] for g in gl]
+            psw = [rng.choice([None, 0, 0, 0.25, -0.5, 200, common, rng.choice(ws), rng.randrange(0, 1000)]),
+                   rng.choice([None, 0, 0, 0.25, -0.5, 533, common, rng.choice(ws), -rng.randrange(1, 300), rng.randrange(1, 1000)])]
+        yield {"kind": "font", "fd": fd, "otf": True, "tol": rng.choice([None, None, 0.25]), "vertical": rng.random() < 0.2,
+               "lib": rng.choice(["ufoLib2", "defcon"]), "post3": False, "notdef": rng.random() < 0.3, "psw": psw, "cffw": True}
 
 
 def _header(t, v):
@@ -89,7 +127,46 @@ def _observe(tt, vertical, otf, roundtrip, post3):
             o["vorg"]["records"].append(["?unknown", 0])
     else:
         o["vorg"] = None
+    o["cff"] = _cff(tt, order, inmemory=tt.reader is None) if otf else None
     return o
+
+
+class _Absent:
+    def __repr__(self):
+        return "absent"
+
+
+_ABSENT = _Absent()
+
+
+def _cff(tt, order, inmemory):
+    """what the 'CFF ' table stores about advances: the two Private operators as written (None = absent)
+    and the raw width operand of every charstring (None = omitted); own extraction, nothing decoded"""
+    from fontTools.misc.psCharStrings import T2WidthExtractor
+    top = tt["CFF "].cff.topDictIndex[0]
+    priv = top.Private
+    cs_out = []
+    for g in order:
+        cs = top.CharStrings[g]
+        ex = T2WidthExtractor(getattr(cs.private, "Subrs", []), cs.globalSubrs, 0, _ABSENT, cs.private)
+        ex.execute(cs)
+        cs_out.append(None if ex.width is _ABSENT else ex.width)
+    d, n = priv.rawDict.get("defaultWidthX"), priv.rawDict.get("nominalWidthX")
+    if inmemory:
+        # setupTable_CFF pre-fills rawDict with the CFF defaults (both 0): on the font not yet saved an
+        # operator holding its default IS the absent operator (fontTools does not write defaults)
+        d, n = (None if d == 0 else d), (None if n == 0 else n)
+    return {"d": d, "n": n, "cs": cs_out}
+
+
+def _dn(gs, psw):
+    """the pair getDefaultAndNominalWidths must return, computed independently: fontinfo values (fallbacks
+    200 / 0) through otRound as soon as one of them is set, else fontTools' optimiser on the rounded advances"""
+    from fontTools.cffLib.width import optimizeWidths
+    from fontTools.misc.roundTools import otRound
+    if psw is None or (psw[0] is None and psw[1] is None):
+        return [int(v) for v in optimizeWidths([otRound(g.width) for g in gs.values()])]
+    return [otRound(200 if psw[0] is None else psw[0]), otRound(0 if psw[1] is None else psw[1])]
 
 
 def _bounds(tt, otf):
@@ -120,7 +197,7 @@ def _compile(font, otf, tol, post3):
     return tt, gs
 
 
-def _one(fd, otf, tol, vertical, lib, post3, tags, nontrivial):
+def _one(fd, otf, tol, vertical, lib, post3, tags, nontrivial, psw=None):
     from fontTools.ttLib import TTFont
     font = build(fd, lib)
     font.info.openTypeOS2TypoAscender = 800
@@ -130,6 +207,9 @@ def _one(fd, otf, tol, vertical, lib, post3, tags, nontrivial):
         font.info.openTypeVheaVertTypoAscender = 500
         font.info.openTypeVheaVertTypoDescender = -500
         font.info.openTypeVheaVertTypoLineGap = 0
+    if psw is not None:
+        font.info.postscriptDefaultWidthX = psw[0]
+        font.info.postscriptNominalWidthX = psw[1]
     for g in fd["glyphs"]:
         if "height" in g:
             font[g["name"]].height = g["height"]
@@ -152,7 +232,7 @@ def _one(fd, otf, tol, vertical, lib, post3, tags, nontrivial):
         # input for the model: glyph order does not matter for the error
         glyphs = [{"name": g["name"], "width": rat(g["width"]), "height": rat(g.get("height", 0)),
                    "vorg": None if g.get("vorg") is None else rat(g["vorg"]), "raw": None} for g in fd["glyphs"]]
-        inp = {"otf": otf, "tol": rat(0.5 if tol is None else tol), "typoAsc": 800, "vertical": vertical, "cps": [], "glyphs": glyphs, "reloaded": False, "setOrder": []}
+        inp = {"otf": otf, "tol": rat(0.5 if tol is None else tol), "typoAsc": 800, "vertical": vertical, "cps": [], "glyphs": glyphs, "reloaded": False, "setOrder": [], "dn": None}
         return [{"op": "font", "in": inp, "obs": {"err": err}, "tags": tags + ["err:" + err], "nontrivial": True}]
     src = {g["name"]: g for g in fd["glyphs"]}
     glyphs = []
@@ -166,7 +246,8 @@ def _one(fd, otf, tol, vertical, lib, post3, tags, nontrivial):
                        "vorg": None if g.get("vorg") is None else rat(g["vorg"]),
                        "raw": None if b is None else [rat(v) for v in b]})
     cps = sorted(u for g in fd["glyphs"] for u in g["unicodes"])
-    inp = {"otf": otf, "tol": rat(0.5 if tol is None else tol), "typoAsc": 800, "vertical": vertical, "cps": cps, "glyphs": glyphs, "setOrder": list(gs.keys())}
+    inp = {"otf": otf, "tol": rat(0.5 if tol is None else tol), "typoAsc": 800, "vertical": vertical, "cps": cps, "glyphs": glyphs, "setOrder": list(gs.keys()),
+           "dn": _dn(gs, psw) if otf else None}
     return [{"op": "font", "in": dict(inp, reloaded=False), "obs": o1, "tags": tags + ["in-memory"], "nontrivial": nontrivial},
             {"op": "font", "in": dict(inp, reloaded=True), "obs": o2, "tags": tags + ["reloaded"], "nontrivial": nontrivial}]
 
@@ -202,14 +283,21 @@ def run(case):
         a["width"] == b["width"] for a, b in zip(fd["glyphs"], fd["glyphs"][1:])))
     tags = ["otf" if case["otf"] else "ttf", "tol:" + str(case["tol"]), "vertical" if case["vertical"] else "horizontal",
             case["lib"], "post3" if case["post3"] else "post2"]
-    return _one(fd, case["otf"], case["tol"], case["vertical"], case["lib"], case["post3"], tags, nontrivial)
+    psw = case.get("psw")
+    if case.get("cffw"):
+        ws = {g["width"] for g in fd["glyphs"]}
+        tags = ["cffw", "psw:" + ("auto" if psw is None or psw == [None, None] else
+                                   "%s/%s" % tuple("none" if v is None else ("0" if round(v) == 0 else "nz") for v in psw)),
+                "vertical" if case["vertical"] else "horizontal", case["lib"]]
+        nontrivial = len(ws) > 1
+    return _one(fd, case["otf"], case["tol"], case["vertical"], case["lib"], case["post3"], tags, nontrivial, psw)
 
 
 def agree(req, rep):
     m, o = rep["model"], req["obs"]
     if m.get("err") is not None or o.get("err") is not None:
         return m.get("err") == o.get("err")
-    keys = ["hmtx", "hhea", "vmtx", "vhea", "bbox", "charRange", "vorg", "numGlyphs"]
+    keys = ["hmtx", "hhea", "vmtx", "vhea", "bbox", "charRange", "vorg", "numGlyphs", "cff"]
     if o["extraNames"] is not None:
         keys.append("extraNames")
     return all(m[k] == o[k] for k in keys) and o["roundtrip"]
@@ -234,8 +322,13 @@ def shrink(case):
 LEVEL_TEXT = ("Proved for all inputs (Lean): the pre-computed long-metric count is in range, minimal, and a table written with it decodes "
               "back to the same advances; advanceMax / min bearings / max extent are the max/min over the right glyph subsets; hmtx/vmtx rows; "
               "the font box is the min/max of the glyph boxes; CFF box rounding encloses or rounds within tolerance; OS/2 char range; "
-              "post extra names; VORG default is a most frequent origin with exactly the differing glyphs as records. Tied to the code by "
+              "post extra names; VORG default is a most frequent origin with exactly the differing glyphs as records; the advances stored in the 'CFF ' "
+              "table (Private defaultWidthX/nominalWidthX as written by setupTable_CFF + the width operand getCharStringForGlyph puts in each "
+              "charstring) read back as the rounded source advances = the hmtx advances, for every default/nominal pair. Tied to the code by "
               "exhaustive advance sequences + random fonts observed both in memory and after save/reload.")
 LEVEL_NOTE = ("Trusted: Lean kernel + standard axioms; correspondence harness; glyph outline bounds are fontTools' (input to the model, "
               "measured independently with BoundsPen); byte idempotence of save/load/save is measured, not proved; only line segments and "
-              "translated components are generated here (curve extrema are fontTools' business).")
+              "translated components are generated here (curve extrema are fontTools' business). CFF widths: modelled and proved (not predicate-only); "
+              "the optimiser's pair is an input; on the not-yet-saved font ufo2ft pre-fills Private.rawDict with the CFF defaults, so there an "
+              "operator holding 0 is counted as absent (after reload absence is observed literally); only optimizeCFF=False charstrings are "
+              "observed here (what specialisation/subroutinisation do to the operand is C12's subject, which models the same two code sites).")
